@@ -233,6 +233,24 @@ class CharFacts:
             n.inc = keep
             return n
         n.preds[pred] = val
+        # a true predicate with a small finite universe turns the facts into an explicit set
+        universe = None
+        if val and k == "p" and pred[1] in ("is_ascii", "is_ascii_digit", "is_ascii_hexdigit", "is_ascii_alphabetic",
+                                            "is_ascii_alphanumeric", "is_ascii_punctuation", "is_ascii_uppercase",
+                                            "is_ascii_lowercase"):
+            universe = [chr(x) for x in range(128)]
+        elif val and k == "range":
+            lo, hi, incl = pred[1], pred[2], pred[3]
+            cnt = ord(hi) - ord(lo) + (1 if incl else 0)
+            if 0 < cnt <= 256:
+                universe = [chr(x) for x in range(ord(lo), ord(lo) + cnt)]
+        if universe is not None:
+            keep = frozenset(c for c in universe if n.possible(c))
+            if not keep:
+                return None
+            n.inc = keep
+            n.preds = {}
+            n.exc = frozenset()
         return n
 
     def may_be(self, c):
